@@ -360,18 +360,24 @@ class SInt:
         return SInt.wrap(self._divmod(self.t, c)[0])
 
     def __rfloordiv__(self, o):
+        if isinstance(o, (float, Fraction)):
+            raise Unsupported("real // int")
         c = self._coerce(o)
         if c is None:
             return NotImplemented
         return SInt.wrap(self._divmod(c, self.t)[0])
 
     def __mod__(self, o):
+        if isinstance(o, (SReal, float, Fraction)):
+            raise Unsupported("int % real")
         c = self._coerce(o)
         if c is None:
             return NotImplemented
         return SInt.wrap(self._divmod(self.t, c)[1])
 
     def __rmod__(self, o):
+        if isinstance(o, (float, Fraction)):
+            raise Unsupported("real % int")
         c = self._coerce(o)
         if c is None:
             return NotImplemented
@@ -593,6 +599,21 @@ class SReal:
         if not SReal._ok(o):
             return NotImplemented
         return SReal.of(o) / self
+
+    def __floordiv__(self, o):
+        raise Unsupported("real // x")
+
+    def __rfloordiv__(self, o):
+        raise Unsupported("x // real")
+
+    def __mod__(self, o):
+        raise Unsupported("real % x")
+
+    def __rmod__(self, o):
+        raise Unsupported("x % real")
+
+    def __rpow__(self, o, mod=None):
+        raise Unsupported("x ** real")
 
     def __abs__(self):
         if isinstance(self.num, int):
@@ -1062,12 +1083,34 @@ class Ctx:
             return t
         lo, hi = self._bounds(t)
         if lo is None or hi is None or hi - lo > 64:
-            raise Unsupported("__index__ on unbounded symbolic int")
+            return self._concretize_via_inputs(t)
         for v in range(lo, hi):
             if self.branch(t == v):
                 return v
         self.solver.add(t == hi)
         return hi
+
+    def _concretize_via_inputs(self, t):
+        """a term with a wide range: enumerate the (small-range) inputs it depends on"""
+        from z3 import z3util
+        vs = z3util.get_vars(t)
+        subst = []
+        for v in vs:
+            lo, hi = self._bounds(v)
+            if hi - lo > 64:
+                raise Unsupported("__index__ on unbounded symbolic int")
+            val = hi
+            for k in range(lo, hi):
+                if self.branch(v == k):
+                    val = k
+                    break
+            else:
+                self.solver.add(v == hi)
+            subst.append((v, z3.IntVal(val)))
+        r = z3.simplify(z3.substitute(t, *subst))
+        if not z3.is_int_value(r):
+            raise Unsupported("term did not reduce to a value after fixing its inputs")
+        return r.as_long()
 
     def _bounds(self, t):
         """feasible range of an int term by model probing (small ranges only)"""
